@@ -135,6 +135,19 @@ public:
     explicit ExpressionBuilder(Document& doc);
     ExpressionFragments& getExpressions();
 
+    /** The number of scopes that are open right now. */
+    size_t getFrameCount() const { return frames.size(); }
+
+    /**
+     * Closes the scopes opened since getFrameCount() returned \a count: a text
+     * that fails to parse inside a quantifier leaves the quantifier's scope open.
+     */
+    void restoreFrames(size_t count)
+    {
+        while (frames.size() > count)
+            popFrame();
+    }
+
     void add_position(uint32_t position, uint32_t offset, uint32_t line, std::shared_ptr<std::string> path) override;
 
     void handle_error(const TypeException&) override;
